@@ -9,10 +9,15 @@ V=/verif
 cd /repo || exit 2
 if [ -n "$(git status --porcelain)" ]; then echo "/repo not clean"; exit 2; fi
 PATCH=$OUT/patch$K.diff
-git apply --check "$PATCH" || { echo "patch does not apply"; exit 2; }
+APPLY="git apply"
+if ! git apply --check "$PATCH" 2>/dev/null; then
+  if patch -p1 --dry-run -F3 -s < "$PATCH" >/dev/null 2>&1; then APPLY="patch -p1 -F3 -s -i"; else echo "SEED $ID patch does not apply"; exit 2; fi
+fi
 S=$(mktemp -d /var/tmp/seed.XXXXXX); trap 'git -C /repo checkout -- . ; git -C /repo clean -fdq; rm -rf "$S"' EXIT
 go build -o $S/crd-clean ./cmd || exit 2
-git apply "$PATCH"
+$APPLY "$PATCH"
+find . -name '*.orig' -delete
+git diff > $S/applied.diff
 BUILD=ok; go build ./... >/dev/null 2>&1 || BUILD=fail
 TESTS=pass; go test -vet=off -count=1 ./... >$S/test.log 2>&1 || TESTS=fail
 go build -o $S/crd-mut ./cmd
@@ -30,7 +35,7 @@ done
 echo "SEED $ID build=$BUILD tests=$TESTS demo_mut=$DEMO_MUT demo_clean=$DEMO_CLEAN checks:$RES"
 if [ "$BUILD" = ok ] && [ "$TESTS" = pass ] && [ "$DEMO_MUT" != 0 ] && [ "$DEMO_CLEAN" = 0 ]; then
   mkdir -p $V/seeded/$ID
-  cp "$PATCH" $V/seeded/$ID/patch.diff
+  cp $S/applied.diff $V/seeded/$ID/patch.diff
   cp $OUT/demo$K.sh $V/seeded/$ID/demo.sh 2>/dev/null
   cp $OUT/meta$K.txt $V/seeded/$ID/meta.txt 2>/dev/null
   python3 - "$ID" "$PROP" "$RES" "$OUT/meta$K.txt" <<'PY'
